@@ -1,4 +1,4 @@
-import FoxModel.Lemmas.MachineHost
+import FoxModel.Lemmas.MachineLazy
 import FoxModel.Props.C01Map
 import FoxModel.Util
 /-
@@ -73,6 +73,24 @@ theorem machine_path_keeps_prefix {target : Node} (hw : wfNode target = true) (p
   unfold pathEvents
   rw [walk_prefix, pick_map_pre]
 
+/-- **The lazy entry points agree with the recording ones** (C01: "ServeHTTP, Lookup, Reverse and the iterator Reverse, on
+    the router and on transactions, all agree on that selection"; C11: the Allow-header loops). `roots.lookup` run with
+    `lazy = true` (Router.Reverse, Txn.Reverse, Iter.Reverse, the 405 / OPTIONS loops of ServeHTTP: no parameter is
+    recorded, `paramCnt` is not advanced) returns the same route and the same trailing-slash flag as the run with
+    `lazy = false` (ServeHTTP, Lookup), on every forest - well-formed or not -, for every method, Host and path: both runs
+    move through the tree in lock step (`lazy_sim_all`, `host_lazy_sim_all`: 27 + 19 cases). -/
+theorem machine_lazy_agrees (rs : Roots) (m hostPort path : Bytes) :
+    forget (Machine.lookup rs m hostPort path true) = forget (Machine.lookup rs m hostPort path false) :=
+  machine_lookup_lazy rs m hostPort path
+
+/-- hence, after any history, the lazy lookup selects exactly the route and the flag of the documented rules -/
+theorem machine_lazy_routing_correct_on_the_sequential_map (ops : List Op) (hv : ∀ op ∈ ops, op.valid = true)
+    (hu : ∀ op ∈ ops, updSplitOk op = true)
+    (m hostPort path : Bytes) (hn : noDbl path = true) (hs : SLASH ∉ stripHostPort hostPort) :
+    forget (Machine.lookup (runModel newTree ops).1.roots m hostPort path true) =
+      forget (toResult (Spec.route ((runSpec [] ops).1.routesOf m) hostPort path)) := by
+  rw [machine_lazy_agrees, machine_routing_correct_on_the_sequential_map ops hv hu m hostPort path hn hs]
+
 end Fox.C01
 
 /-! ### non-vacuity: the machine really backtracks, truncates and keeps a trailing-slash candidate on concrete trees -/
@@ -111,6 +129,10 @@ def rs : Roots := (runModel newTree hist).1.roots
 -- a path byte '{' is searched among the static children and lands on the param child (explored twice, same answer)
 #guard (match Machine.lookup rs GET [] (ascii "/{/b/c/x") with
         | .found r ps false => r.hid == 4 && ps == [(ascii "p", ascii "{")] | _ => false)
+-- the lazy run (Reverse, Allow loops) selects the same routes and records nothing
+#guard [("", "/a/b/c/d"), ("", "/a/b/c/y"), ("", "/a/b/c"), ("a.zz.io:8080", "/q"), ("", "/{/b/c/x"), ("", "/zz")].all fun (h, p) =>
+  forget (Machine.lookup rs GET (ascii h) (ascii p) true) == forget (Machine.lookup rs GET (ascii h) (ascii p) false) &&
+  (match Machine.lookup rs GET (ascii h) (ascii p) true with | .found _ ps _ => ps.isEmpty | _ => true)
 -- and on all of them machine = enumerating model = specification
 #guard [("", "/a/b/c/d"), ("", "/a/b/c/y"), ("", "/a/b/c"), ("a.zz.io:8080", "/q"), ("", "/{/b/c/x"), ("", "/zz")].all fun (h, p) =>
   Machine.lookup rs GET (ascii h) (ascii p) == Model.lookup rs GET (ascii h) (ascii p) &&
